@@ -89,6 +89,7 @@ type inRow struct {
 	V   string `json:"v"`             // "" absent | "null(int64)" | int literal
 	B   string `json:"b"`             // "" absent | "null(bool)" | true | false
 	W   bool   `json:"w"`
+	M   string `json:"m"` // "" absent | int64, float64 or string literal: the heterogeneous argument of cm:=collect(m), um:=union(m)
 	F   string `json:"f"` // "" absent (sparse pass only) | {a:int} | {a:"x"}
 }
 
@@ -108,6 +109,9 @@ func (r inRow) zson(withSec bool) string {
 		f = append(f, "b:"+r.B)
 	}
 	f = append(f, fmt.Sprintf("w:%v", r.W))
+	if r.M != "" {
+		f = append(f, "m:"+r.M)
+	}
 	if r.F != "" {
 		f = append(f, "f:"+r.F)
 	}
@@ -140,6 +144,10 @@ func genRows(keys []key, seed int64) []inRow {
 			r.B = "false"
 		}
 		r.W = rng.Intn(2) == 0
+		// values of several TYPES per group: a partial of collect()/union() is then an
+		// array/set of a union type, and merging partials must give the same typed
+		// multiset as consuming the raw values
+		r.M = []string{"1", "2", `"s"`, `"t"`, "1.5", "2.5", "7", ""}[rng.Intn(8)]
 		// records: fusing bare primitives of one type twice yields union(t,t) (the C20 finding)
 		if rng.Intn(3) == 0 {
 			r.F = `{a:"x"}`
@@ -152,9 +160,55 @@ func genRows(keys []key, seed int64) []inRow {
 }
 
 // The aggregates every group-by case is run with.
-const aggList = "ids:=collect(u), n:=count(), nw:=count() where w, sm:=sum(v), mn:=min(v), mx:=max(v), av:=avg(v), an:=and(b), o:=or(b), un:=union(v), dc:=dcount(v), fu:=fuse(f)"
+const aggList = "ids:=collect(u), n:=count(), nw:=count() where w, sm:=sum(v), mn:=min(v), mx:=max(v), av:=avg(v), an:=and(b), o:=or(b), un:=union(v), dc:=dcount(v), fu:=fuse(f), cm:=collect(m), um:=union(m)"
 
-var aggNames = []string{"ids", "n", "nw", "sm", "mn", "mx", "av", "an", "o", "un", "dc", "fu"}
+var aggNames = []string{"ids", "n", "nw", "sm", "mn", "mx", "av", "an", "o", "un", "dc", "fu", "cm", "um"}
+
+// refZctx builds the expected container types of the reference results.
+var refZctx = zed.NewContext()
+
+func typeOfLit(lit string) zed.Type {
+	switch {
+	case strings.HasPrefix(lit, `"`):
+		return zed.TypeString
+	case strings.Contains(lit, "."):
+		return zed.TypeFloat64
+	}
+	return zed.TypeInt64
+}
+
+// typedContainer renders the reference value of collect()/union() over the
+// given literals: the elements (sorted) and the exact type of the result.
+func typedContainer(lits []string, set bool) string {
+	if len(lits) == 0 {
+		return "null"
+	}
+	var types []zed.Type
+	el := append([]string(nil), lits...)
+	if set {
+		seen := map[string]bool{}
+		el = el[:0]
+		for _, l := range lits {
+			if !seen[l] {
+				seen[l] = true
+				el = append(el, l)
+			}
+		}
+	}
+	for _, l := range el {
+		types = append(types, typeOfLit(l))
+	}
+	types = zed.UniqueTypes(types)
+	inner := types[0]
+	if len(types) > 1 {
+		inner = refZctx.LookupTypeUnion(types)
+	}
+	sort.Strings(el)
+	if set {
+		return "|[" + strings.Join(el, ",") + "]|::" + zson.FormatType(refZctx.LookupTypeSet(inner))
+	}
+	return "[" + strings.Join(el, ",") + "]::" + zson.FormatType(refZctx.LookupTypeArray(inner))
+}
 
 func intsOf(rows []inRow, f func(inRow) string) (vals []int64, nulls int) {
 	for _, r := range rows {
@@ -179,8 +233,14 @@ func naive(rows []inRow) map[string]string {
 	for _, r := range rows {
 		ids = append(ids, fmt.Sprint(r.ID))
 	}
-	sort.Strings(ids)
-	out["ids"] = "[" + strings.Join(ids, ",") + "]"
+	out["ids"] = typedContainer(ids, false)
+	var ms []string
+	for _, r := range rows {
+		if r.M != "" && !strings.HasPrefix(r.M, "null") { // collect() and union() skip nulls
+			ms = append(ms, r.M)
+		}
+	}
+	out["cm"], out["um"] = typedContainer(ms, false), typedContainer(ms, true)
 	out["n"] = fmt.Sprintf("%d(uint64)", len(rows))
 	nw := 0
 	for _, r := range rows {
@@ -220,8 +280,7 @@ func naive(rows []inRow) map[string]string {
 		for v := range set {
 			el = append(el, fmt.Sprint(v))
 		}
-		sort.Strings(el)
-		out["un"] = "|[" + strings.Join(el, ",") + "]|"
+		out["un"] = typedContainer(el, true)
 	}
 	// dcount counts distinct non-missing values, null included
 	d := map[int64]bool{}
@@ -274,17 +333,19 @@ func naive(rows []inRow) map[string]string {
 	return out
 }
 
-// canon formats a value with the elements of arrays and sets sorted, so that
-// collect()/union() compare as multisets.
+// canon formats a value exactly (ZSON with type decorations); arrays and sets
+// are rendered as their elements (each under its own type, sorted, so that
+// collect()/union() compare as multisets) followed by the exact type of the
+// whole value, so a result that differs only in its type is a different result.
 func canon(v zed.Value) string {
 	if v.IsNull() {
 		return zson.FormatValue(v)
 	}
-	switch t := zed.TypeUnder(v.Type()).(type) {
+	switch t := v.Type().(type) {
 	case *zed.TypeArray:
-		return "[" + strings.Join(elems(v, t.Type), ",") + "]"
+		return "[" + strings.Join(elems(v, t.Type), ",") + "]::" + zson.FormatType(t)
 	case *zed.TypeSet:
-		return "|[" + strings.Join(elems(v, t.Type), ",") + "]|"
+		return "|[" + strings.Join(elems(v, t.Type), ",") + "]|::" + zson.FormatType(t)
 	}
 	return zson.FormatValue(v)
 }
@@ -292,7 +353,7 @@ func canon(v zed.Value) string {
 func elems(v zed.Value, inner zed.Type) []string {
 	var out []string
 	for it := v.Iter(); !it.Done(); {
-		out = append(out, zson.FormatValue(zed.NewValue(inner, it.Next())))
+		out = append(out, zson.FormatValue(zed.NewValue(inner, it.Next()).Under()))
 	}
 	sort.Strings(out)
 	return out
